@@ -210,6 +210,35 @@ Definition i64max : Z := 9223372036854775807%Z.
 Definition i64min : Z := (-9223372036854775808)%Z.
 Definition u64max : Z := 18446744073709551615%Z.
 Definition all_digits (ds : str) : Prop := forallb is_digit ds = true.
+(* The same value with a ceiling applied at every step: what the executable
+   models use (the unbounded fold costs time quadratic in the number of digits);
+   [cvalue_spec] takes every proof back to [value]. *)
+Definition cvalue (cap : Z) (ds : str) : Z := fold_left (fun acc d => Z.min (10 * acc + digit_val d) cap) ds 0%Z.
+Lemma cvalue_fold cap : (0 <= cap)%Z -> forall ds a b, forallb is_digit ds = true -> (0 <= a)%Z -> b = Z.min a cap ->
+  fold_left (fun acc d => Z.min (10 * acc + digit_val d) cap) ds b = Z.min (fold_left (fun acc d => (10 * acc + digit_val d)%Z) ds a) cap.
+Proof.
+  intros Hcap. induction ds as [|d ds IH]; intros a b Hd Ha ->; cbn [fold_left]; [reflexivity|].
+  cbn [forallb] in Hd. apply andb_prop in Hd as [Hd1 Hd2].
+  assert (0 <= digit_val d <= 9)%Z as Dv.
+  { unfold digit_val, is_digit in *. apply andb_prop in Hd1 as [X1 X2]. apply N.leb_le in X1, X2. lia. }
+  destruct (Z.le_gt_cases a cap) as [L|G].
+  - rewrite (Z.min_l a cap) by lia. apply IH; auto; lia.
+  - rewrite (Z.min_r a cap) by lia.
+    (* both folds stay at or above the ceiling from here on *)
+    assert (forall ds x, forallb is_digit ds = true -> (cap <= x)%Z -> (cap <= fold_left (fun acc d => (10 * acc + digit_val d)%Z) ds x)%Z) as Up.
+    { clear -Hcap. induction ds as [|e ds IH]; intros x He Hx; cbn [fold_left]; [exact Hx|].
+      cbn [forallb] in He. apply andb_prop in He as [He1 He2]. apply IH; auto.
+      unfold digit_val, is_digit in *. apply andb_prop in He1 as [X1 X2]. apply N.leb_le in X1, X2. lia. }
+    assert (forall ds, forallb is_digit ds = true -> fold_left (fun acc d => Z.min (10 * acc + digit_val d) cap) ds cap = cap) as Stay.
+    { clear -Hcap. induction ds as [|e ds IH]; intros He; cbn [fold_left]; [reflexivity|].
+      cbn [forallb] in He. apply andb_prop in He as [He1 He2].
+      replace (Z.min (10 * cap + digit_val e) cap) with cap; [apply IH; auto|].
+      unfold digit_val, is_digit in *. apply andb_prop in He1 as [X1 X2]. apply N.leb_le in X1, X2. lia. }
+    replace (Z.min (10 * cap + digit_val d) cap) with cap by lia.
+    rewrite Stay by auto. rewrite Z.min_r; [reflexivity|]. apply Up; auto. lia.
+Qed.
+Lemma cvalue_spec cap ds : (0 <= cap)%Z -> all_digits ds -> cvalue cap ds = Z.min (value ds) cap.
+Proof. intros Hc Hd. unfold cvalue, value. apply (cvalue_fold cap Hc ds 0%Z 0%Z Hd); lia. Qed.
 
 (* string literal helper: ASCII text written as a Coq string *)
 Require Import Coq.Strings.String Coq.Strings.Ascii.
